@@ -926,11 +926,144 @@ func ruleSSAFormatFromLineOnly(p *Prog, l *Ledger, tier string) {
 				walk(mu.Value, 0)
 				if fromTable != "" {
 					l.Fail(rule, name, key, p.Pos(mu.Pos()), "ReadFromSSAWithOptions puts "+fromTable+" into the table of columns it reads rows with: the columns of a section are those its Format line names, and a line that names fewer (or other) columns than the seeded ones is then read against columns the document never declared")
+				} else if filled := prefilledMap(p, mu.Map); filled != "" {
+					// (round 16) the table the Format line is written into starts empty
+					l.Fail(rule, name, key, p.Pos(mu.Pos()), "ReadFromSSAWithOptions writes the columns of a Format line into a table that "+filled+": a line that names fewer columns than that table holds leaves the rest of it in place, and rows are then refused or read against columns the document never declared")
 				} else {
-					l.Prove(rule, name, key, p.Pos(mu.Pos()), "the column name comes from the scanned line")
+					l.Prove(rule, name, key, p.Pos(mu.Pos()), "the column name comes from the scanned line, and goes into a table made empty")
 				}
 			}
 		}
 	}
 	l.Min(rule, n, 1)
+}
+
+// prefilledMap: some value that reaches m (through phis) is the result of a library function that stores into the
+// map it returns: the map is not empty when it arrives.  "" when every reaching value is a fresh make(map…).
+// A value that arrives over the false edge of a test of a flag is left out when the flag is shown to be true whenever
+// the value is a filled map (the two are carried round the loop together: filled map stored ⇒ flag set in the same
+// arm; see filledImpliesFlag).
+func prefilledMap(p *Prog, m ssa.Value) string {
+	filledBy := func(v ssa.Value) string {
+		x, ok := v.(*ssa.Call)
+		if !ok {
+			return ""
+		}
+		sc := x.Call.StaticCallee()
+		if sc == nil || fnPkg(sc) != p.LibSSA {
+			return ""
+		}
+		for _, b := range sc.Blocks {
+			for _, ins := range b.Instrs {
+				if mu, ok := ins.(*ssa.MapUpdate); ok {
+					for _, rb := range sc.Blocks {
+						if r, ok := rb.Instrs[len(rb.Instrs)-1].(*ssa.Return); ok && len(r.Results) > 0 && r.Results[0] == mu.Map {
+							return "comes filled from " + FnName(sc) + " (" + p.Pos(x.Pos()) + ")"
+						}
+					}
+				}
+			}
+		}
+		return ""
+	}
+	seen := map[ssa.Value]bool{}
+	var walk func(v ssa.Value) string
+	walk = func(v ssa.Value) string {
+		if v == nil || seen[v] {
+			return ""
+		}
+		seen[v] = true
+		switch x := v.(type) {
+		case *ssa.Phi:
+			for k, e := range x.Edges {
+				pred := x.Block().Preds[k]
+				if iff, ok := pred.Instrs[len(pred.Instrs)-1].(*ssa.If); ok && len(pred.Succs) == 2 && pred.Succs[1] == x.Block() && pred.Succs[0] != x.Block() {
+					// e arrives only when the tested flag is false
+					if ep, ok := e.(*ssa.Phi); ok {
+						if fp, ok := iff.Cond.(*ssa.Phi); ok && fp.Block() == ep.Block() && filledImpliesFlag(ep, fp, filledBy) {
+							continue
+						}
+					}
+				}
+				if w := walk(e); w != "" {
+					return w
+				}
+			}
+		case *ssa.Call:
+			return filledBy(x)
+		}
+		return ""
+	}
+	return walk(m)
+}
+
+// filledImpliesFlag: mp (a map carried round a loop) and fp (a bool carried round the same loop, phis of one block)
+// are assigned together: on every way into the block, a map that may be filled comes with the flag true.
+func filledImpliesFlag(mp, fp *ssa.Phi, filledBy func(ssa.Value) string) bool {
+	type pair struct{ m, f ssa.Value }
+	seen := map[pair]bool{}
+	var mayBeFilled func(v ssa.Value, vis map[ssa.Value]bool) bool
+	mayBeFilled = func(v ssa.Value, vis map[ssa.Value]bool) bool {
+		if vis[v] {
+			return false
+		}
+		vis[v] = true
+		switch x := v.(type) {
+		case *ssa.MakeMap:
+			return false
+		case *ssa.Const:
+			return false // nil map
+		case *ssa.Phi:
+			for _, e := range x.Edges {
+				if mayBeFilled(e, vis) {
+					return true
+				}
+			}
+			return false
+		case *ssa.Call:
+			return filledBy(x) != "" || true
+		}
+		return true
+	}
+	isTrue := func(v ssa.Value) bool {
+		c, ok := v.(*ssa.Const)
+		return ok && c.Value != nil && c.Value.String() == "true"
+	}
+	var ok func(m, f ssa.Value, depth int) bool
+	ok = func(m, f ssa.Value, depth int) bool {
+		if depth > 12 {
+			return false
+		}
+		if seen[pair{m, f}] {
+			return true // the hypothesis being established
+		}
+		seen[pair{m, f}] = true
+		if isTrue(f) {
+			return true
+		}
+		if !mayBeFilled(m, map[ssa.Value]bool{}) {
+			return true
+		}
+		mph, isM := m.(*ssa.Phi)
+		fph, isF := f.(*ssa.Phi)
+		if isM && isF && mph.Block() == fph.Block() {
+			for k := range mph.Edges {
+				if !ok(mph.Edges[k], fph.Edges[k], depth+1) {
+					return false
+				}
+			}
+			return true
+		}
+		if isM && !isF {
+			// the map is joined here and the flag is not: every arm has to be fine with this flag value
+			for _, e := range mph.Edges {
+				if !ok(e, f, depth+1) {
+					return false
+				}
+			}
+			return true
+		}
+		return false
+	}
+	return ok(mp, fp, 0)
 }
